@@ -52,17 +52,17 @@ def abstract_nl(e, cache):
 class Stats:
     def __init__(s):
         s.queries = 0; s.unsat = 0; s.sat = 0; s.unknown = 0
-        s.z3_s = 0.0; s.stage1 = 0; s.stage2 = 0; s.cvc5_s = 0.0; s.cvc5_checked = 0; s.cvc5_disagree = 0
+        s.z3_s = 0.0; s.stage0 = 0; s.stage1 = 0; s.stage2 = 0; s.cvc5_s = 0.0; s.cvc5_checked = 0; s.cvc5_disagree = 0
         s.samples = []
 
     def merge(s, o):
-        for k in ('queries', 'unsat', 'sat', 'unknown', 'z3_s', 'stage1', 'stage2', 'cvc5_s', 'cvc5_checked', 'cvc5_disagree'):
+        for k in ('queries', 'unsat', 'sat', 'unknown', 'z3_s', 'stage0', 'stage1', 'stage2', 'cvc5_s', 'cvc5_checked', 'cvc5_disagree'):
             setattr(s, k, getattr(s, k) + getattr(o, k))
         s.samples += o.samples[:2]
 
     def as_dict(s):
         return dict(queries=s.queries, unsat=s.unsat, sat=s.sat, unknown=s.unknown, z3_s=round(s.z3_s, 3),
-                    stage1_uf_abstracted=s.stage1, stage2_exact_nra=s.stage2, cvc5_s=round(s.cvc5_s, 3),
+                    stage0_normal_form=s.stage0, stage1_uf_abstracted=s.stage1, stage2_exact_nra=s.stage2, cvc5_s=round(s.cvc5_s, 3),
                     cvc5_cross_checked=s.cvc5_checked, cvc5_disagreements=s.cvc5_disagree)
 
 
@@ -83,6 +83,18 @@ def solve(st, assumptions, bad, timeout_s=60, seed=0, want_model=True, label='',
     stage 2: exact nonlinear real arithmetic."""
     st.queries += 1
     cons = [to_z3(a) for a in assumptions] + [to_z3(bad)]
+    if 0 in stages or 1 in stages:
+        try:
+            t0 = time.time()
+            cb = Canon().boolean(to_z3(bad))
+            st.z3_s += time.time() - t0
+            if z3.is_false(cb):
+                st.unsat += 1; st.stage0 += 1
+                if len(st.samples) < 3 and label: st.samples.append({'query': label, 'stage': 'polynomial normal form', 'result': 'unsat (negated obligation normalises to false)'})
+                return 'unsat', None
+            cons[-1] = cb
+        except (OverflowError, ValueError):
+            pass
     if 1 in stages:
         cache = {}
         acons = [abstract_nl(c, cache) for c in cons]
@@ -114,6 +126,26 @@ def _dump(sol, path):
     os.makedirs(os.path.dirname(path), exist_ok=True)
     with open(path, 'w') as f:
         f.write('(set-logic ALL)\n' + sol.to_smt2())
+
+
+def witness_sat(st, assumptions, wbad, real_vars, int_vars=(), seed=0, tries=12, timeout_s=10):
+    """vacuity witness: is assumptions /\\ wbad satisfiable?  Inputs are fixed to random small dyadic values
+    (the solver completes the rest: sqrt variables etc.); falls back to an unconstrained search."""
+    import random
+    rnd = random.Random(seed * 31 + 7)
+    base = [to_z3(a) for a in assumptions] + [to_z3(wbad)]
+    for k in range(tries):
+        cons = list(base)
+        for x in real_vars:
+            cons.append(x == z3.Q(rnd.randint(1, 64) if k % 2 == 0 else rnd.randint(-64, 64), rnd.choice([1, 2, 4])))
+        for p in int_vars:
+            cons.append(p == rnd.randint(1, 5))
+        r, m, dt, _ = _solve(cons, timeout_s * 1000, seed)
+        st.z3_s += dt
+        if r == z3.sat: return True
+    r, m, dt, _ = _solve(base, 3 * timeout_s * 1000, seed)
+    st.z3_s += dt
+    return r == z3.sat
 
 
 def model_val(m, v):
@@ -169,3 +201,172 @@ def snap_model(assumptions, bad, xs, timeout_s=10, seed=0, denom=8, lim=4000):
         cons += [x == z3.ToReal(k) / denom, k <= lim, k >= -lim]
     r, m, dt, _ = _solve(cons, timeout_s * 1000, seed)
     return m if r == z3.sat else None
+
+
+# ------------------------------------------------------------------------------------------------
+# Stage 0: polynomial normal form.  Real-valued terms are rewritten into a canonical sum of monomials
+# over "atoms" (variables, ite terms, reciprocals 1/d of non-constant denominators, sqrt variables,
+# ToReal(int term)), so that algebraically identical computations of different shape become the
+# *same* z3 term and `impl != ref` collapses to false before any search.  a/b is rewritten to
+# a * (1/b): the two differ only where b = 0, which z3 leaves unspecified anyway (zero denominators
+# are the subject of separate queries).
+class Canon:
+    def __init__(s, max_terms=20000):
+        s.pc, s.bc, s.max_terms = {}, {}, max_terms
+        s.atoms = {}
+
+    def atom(s, e):
+        s.atoms[e.get_id()] = e
+        return {((e.get_id(), 1),): F(1)}
+
+    @staticmethod
+    def _add(a, b, sign=1):
+        r = dict(a)
+        for m, c in b.items():
+            v = r.get(m, 0) + sign * c
+            if v == 0: r.pop(m, None)
+            else: r[m] = v
+        return r
+
+    def _mul(s, a, b):
+        if len(a) * len(b) > s.max_terms: raise OverflowError('polynomial too large')
+        r = {}
+        for m1, c1 in a.items():
+            for m2, c2 in b.items():
+                d = dict(m1)
+                for k, p in m2: d[k] = d.get(k, 0) + p
+                m = tuple(sorted(d.items()))
+                v = r.get(m, 0) + c1 * c2
+                if v == 0: r.pop(m, None)
+                else: r[m] = v
+        return r
+
+    def poly(s, e):
+        k = e.get_id()
+        r = s.pc.get(k)
+        if r is not None: return r
+        r = s._poly(e)
+        s.pc[k] = r
+        return r
+
+    def _poly(s, e):
+        if z3.is_rational_value(e): return {(): F(e.numerator_as_long(), e.denominator_as_long())} if e.numerator_as_long() != 0 else {}
+        if z3.is_int_value(e): return {(): F(e.as_long())} if e.as_long() != 0 else {}
+        if not z3.is_app(e) or e.num_args() == 0: return s.atom(e)
+        kind = e.decl().kind()
+        ch = e.children()
+        if kind == z3.Z3_OP_ADD:
+            r = {}
+            for c in ch: r = s._add(r, s.poly(c))
+            return r
+        if kind == z3.Z3_OP_SUB:
+            r = s.poly(ch[0])
+            for c in ch[1:]: r = s._add(r, s.poly(c), -1)
+            return r
+        if kind == z3.Z3_OP_UMINUS:
+            return s._add({}, s.poly(ch[0]), -1)
+        if kind == z3.Z3_OP_MUL:
+            r = {(): F(1)}
+            for c in ch: r = s._mul(r, s.poly(c))
+            return r
+        if kind == z3.Z3_OP_DIV:
+            num, den = s.poly(ch[0]), s.poly(ch[1])
+            if not den: return s.atom(e)
+            if list(den) == [()]:
+                c = den[()]
+                return {m: v / c for m, v in num.items()}
+            if len(den) == 1:                       # monomial denominator c*m: pull the constant out
+                (m, c), = den.items()
+                inv = s.atom(z3.RealVal(1) / s.term({m: F(1)}))
+                return s._mul({mm: v / c for mm, v in num.items()}, inv)
+            # normalise the denominator's leading coefficient so that k*d and d share the reciprocal atom
+            lead = den[min(den)]
+            dn = {m: v / lead for m, v in den.items()}
+            inv = s.atom(z3.RealVal(1) / s.term(dn))
+            return s._mul({m: v / lead for m, v in num.items()}, inv)
+        if kind == z3.Z3_OP_TO_REAL:
+            inner = ch[0]
+            if z3.is_int_value(inner): return {(): F(inner.as_long())}
+            return s.atom(e)
+        if kind == z3.Z3_OP_ITE:
+            c = s.boolean(ch[0])
+            if z3.is_true(c): return s.poly(ch[1])
+            if z3.is_false(c): return s.poly(ch[2])
+            a, b = s.term(s.poly(ch[1])), s.term(s.poly(ch[2]))
+            if a.eq(b): return s.poly(ch[1])
+            return s.atom(z3.If(c, a, b))
+        if kind == z3.Z3_OP_POWER and z3.is_int_value(ch[1]) and 0 <= ch[1].as_long() <= 16:
+            r = {(): F(1)}
+            b = s.poly(ch[0])
+            for _ in range(ch[1].as_long()): r = s._mul(r, b)
+            return r
+        if z3.is_real(e) or z3.is_int(e):           # uninterpreted function etc.
+            args = [s.term(s.poly(c)) if (z3.is_real(c) or z3.is_int(c)) else s.boolean(c) for c in ch]
+            return s.atom(e.decl()(*args))
+        raise ValueError('poly of ' + str(e)[:80])
+
+    def term(s, p):
+        """canonical z3 term of a polynomial"""
+        if not p: return z3.RealVal(0)
+        parts = []
+        for m in sorted(p):
+            c = p[m]
+            t = None
+            for k, pw in m:
+                a = s.atoms[k]
+                a = z3.ToReal(a) if z3.is_int(a) else a
+                for _ in range(pw): t = a if t is None else t * a
+            q = z3.Q(c.numerator, c.denominator)
+            parts.append(q if t is None else (t if c == 1 else q * t))
+        return parts[0] if len(parts) == 1 else z3.Sum(parts)
+
+    def boolean(s, e):
+        k = e.get_id()
+        r = s.bc.get(k)
+        if r is None:
+            r = s._boolean(e)
+            s.bc[k] = r
+        return r
+
+    def _boolean(s, e):
+        if z3.is_true(e) or z3.is_false(e) or not z3.is_app(e) or e.num_args() == 0: return e
+        kind = e.decl().kind()
+        ch = e.children()
+        arith = all(z3.is_real(c) or z3.is_int(c) for c in ch)
+        if arith and len(ch) == 2 and kind in (z3.Z3_OP_LE, z3.Z3_OP_LT, z3.Z3_OP_GE, z3.Z3_OP_GT, z3.Z3_OP_EQ, z3.Z3_OP_DISTINCT):
+            try:
+                d = s._add(s.poly(ch[0]), s.poly(ch[1]), -1)
+            except OverflowError:
+                return e
+            if not d or list(d) == [()]:
+                v = d.get((), F(0))
+                return z3.BoolVal({z3.Z3_OP_LE: v <= 0, z3.Z3_OP_LT: v < 0, z3.Z3_OP_GE: v >= 0, z3.Z3_OP_GT: v > 0,
+                                   z3.Z3_OP_EQ: v == 0, z3.Z3_OP_DISTINCT: v != 0}[kind])
+            # normalise sign/scale by the leading coefficient so that a<=b and -b<=-a coincide
+            lead = d[min(d)]
+            dn = {m: v / abs(lead) for m, v in d.items()}
+            t = s.term(dn); z = z3.RealVal(0)
+            return {z3.Z3_OP_LE: t <= z, z3.Z3_OP_LT: t < z, z3.Z3_OP_GE: t >= z, z3.Z3_OP_GT: t > z,
+                    z3.Z3_OP_EQ: t == z, z3.Z3_OP_DISTINCT: t != z}[kind]
+        if kind == z3.Z3_OP_NOT:
+            c = s.boolean(ch[0])
+            return z3.BoolVal(False) if z3.is_true(c) else z3.BoolVal(True) if z3.is_false(c) else z3.Not(c)
+        if kind in (z3.Z3_OP_AND, z3.Z3_OP_OR):
+            cs = [s.boolean(c) for c in ch]
+            isand = kind == z3.Z3_OP_AND
+            out = []
+            for c in cs:
+                if z3.is_true(c):
+                    if isand: continue
+                    return z3.BoolVal(True)
+                if z3.is_false(c):
+                    if isand: return z3.BoolVal(False)
+                    continue
+                out.append(c)
+            if not out: return z3.BoolVal(isand)
+            return out[0] if len(out) == 1 else (z3.And(*out) if isand else z3.Or(*out))
+        if kind == z3.Z3_OP_ITE:
+            return z3.If(s.boolean(ch[0]), s.boolean(ch[1]), s.boolean(ch[2]))
+        if kind in (z3.Z3_OP_IMPLIES, z3.Z3_OP_XOR, z3.Z3_OP_IFF) or (kind == z3.Z3_OP_EQ and not arith):
+            return e.decl()(*[s.boolean(c) if z3.is_bool(c) else c for c in ch])
+        return e
